@@ -274,3 +274,10 @@ func TestVerif_C14(t *testing.T) {
 	}
 	r.Extra("preemption_bound", bound)
 }
+
+// TestVerifRace_C14 runs every scenario body free (gates answer at once, no oracle) under the race detector.
+func TestVerifRace_C14(t *testing.T) {
+	xplore.Free = 2
+	defer func() { xplore.Free = 0 }()
+	TestVerif_C14(t)
+}
